@@ -313,6 +313,74 @@ def _once_per_iteration(g, H, nodes):
     return "once"
 
 
+def _family(method, gen):
+    """gen plus the sibling closures (defined in the same method) that gen calls by name"""
+    fam = [gen]
+    for c in walk_shallow(gen.node):
+        if isinstance(c, ast.Call) and isinstance(c.func, ast.Name) and c.func.id in method.nested and method.nested[c.func.id] not in fam:
+            fam.append(method.nested[c.func.id])
+    return fam
+
+
+def _mask_terms(fi, stmts, container):
+    """A point mask built as a conjunction of np.isfinite(<container>[k]) terms, possibly over several statements
+    (`m = ...`, `m &= ...`).  -> (set of keys k, None) or (None, (node, why)) when a recognised-wrong term is met;
+    AnalysisError for anything else."""
+    keys = set()
+
+    def key_of(e):
+        if isinstance(e, ast.Name):
+            d = single_def(fi, e.id)
+            if d is not None and isinstance(d[1], ast.Subscript) and norm(d[1].value) == container:
+                return key_of(d[1])
+        if isinstance(e, ast.Subscript) and norm(e.value) == container and isinstance(e.slice, ast.Constant):
+            return e.slice.value
+        if isinstance(e, ast.Subscript) and norm(e.value) == container and isinstance(e.slice, ast.Name):
+            # a key variable looping over a literal tuple of keys
+            for p_ in _parents(e):
+                if isinstance(p_, ast.For) and norm(p_.target) == e.slice.id and isinstance(p_.iter, (ast.Tuple, ast.List)) and all(isinstance(x, ast.Constant) for x in p_.iter.elts):
+                    return tuple(x.value for x in p_.iter.elts)
+        if isinstance(e, ast.Name):
+            return e.id
+        raise AnalysisError("idiom changed: mask term over `%s`" % norm(e)[:50])
+
+    def conj(e):
+        if isinstance(e, ast.BinOp) and isinstance(e.op, ast.BitAnd):
+            return conj(e.left) or conj(e.right)
+        if isinstance(e, ast.BinOp) and isinstance(e.op, ast.BitOr):
+            return (e, "`|` keeps points with one finite coordinate")
+        if isinstance(e, ast.Call) and norm(e.func) in ("np.logical_and", "numpy.logical_and") and len(e.args) == 2:
+            return conj(e.args[0]) or conj(e.args[1])
+        if isinstance(e, ast.Call) and norm(e.func) in ("np.logical_or", "numpy.logical_or"):
+            return (e, "logical_or keeps points with one finite coordinate")
+        if isinstance(e, ast.Call) and norm(e.func) in ("np.isfinite", "numpy.isfinite") and len(e.args) == 1:
+            k_ = key_of(e.args[0])
+            keys.update(k_ if isinstance(k_, tuple) else (k_,))
+            return None
+        if isinstance(e, ast.UnaryOp) and isinstance(e.op, ast.Invert) and isinstance(e.operand, ast.Call):
+            fn = norm(e.operand.func)
+            if fn in ("np.isnan", "numpy.isnan", "pd.isnull", "pd.isna"):
+                return (e, "~isnan keeps infinite values")
+            if fn in ("np.isfinite", "numpy.isfinite"):
+                return (e, "the mask selects the NON-finite points")
+        if isinstance(e, ast.Call) and norm(e.func) in ("np.isnan", "numpy.isnan", "np.isinf"):
+            return (e, "the mask selects the non-finite points")
+        raise AnalysisError("idiom changed: mask term `%s`" % norm(e)[:60])
+    for st in stmts:
+        if isinstance(st, ast.Assign):
+            keys.clear()
+            w = conj(st.value)
+        elif isinstance(st, ast.AugAssign) and isinstance(st.op, ast.BitAnd):
+            w = conj(st.value)
+        elif isinstance(st, ast.AugAssign) and isinstance(st.op, ast.BitOr):
+            w = (st, "`|=` keeps points with one finite coordinate")
+        else:
+            raise AnalysisError("idiom changed: mask statement `%s`" % norm(st)[:60])
+        if w:
+            return None, w
+    return set(keys), None
+
+
 def c17_data_rules(ctx, rid_roles, rid_mask, rid_lock, rid_color):
     prog = ctx.prog
     P = prog.need_cls(CORE + ".Plotter")
@@ -324,21 +392,40 @@ def c17_data_rules(ctx, rid_roles, rid_mask, rid_lock, rid_color):
     need(gen is not None, "anchor lost: gen_xy")
     ctx.touch(gen)
     slot = {"x": {"x_coo"}, "y": {"y_coo", None}, "c": {"c_coo"}, "ye": {"y_err"}, "xe": {"x_err"}}
-    n_slots = 0
-    for n in walk_shallow(gen.node):
-        if isinstance(n, ast.Assign) and isinstance(n.targets[0], ast.Subscript) and norm(n.targets[0].value) == "das" and isinstance(n.targets[0].slice, ast.Constant):
-            k = n.targets[0].slice.value
-            v = n.value
-            sel = None
+    fam = _family(pl, gen)
+    for h_ in fam:
+        ctx.touch(h_)
+    zvar = None
+    for lp0 in walk_shallow(gen.node):
+        if isinstance(lp0, ast.For) and "self._z_vals" in norm(lp0.iter):
+            tg0 = lp0.target
+            zvar = (tg0.elts[-1] if isinstance(tg0, ast.Tuple) else tg0).id
+    need(zvar is not None, "anchor lost: series loop in gen_xy")
+    seen_slots = set()
+    for h_ in fam:
+        pairs = []
+        for n in walk_shallow(h_.node):
+            if isinstance(n, ast.Assign) and isinstance(n.targets[0], ast.Subscript) and isinstance(n.targets[0].value, ast.Name) and isinstance(n.targets[0].slice, ast.Constant) \
+                    and (n.targets[0].value.id == "das" or (h_ is not gen and n.targets[0].value.id in h_.params)):
+                pairs.append((n, n.targets[0].slice.value, n.value))
+            elif isinstance(n, ast.Assign) and isinstance(n.targets[0], ast.Name) and isinstance(n.value, ast.Dict) and n.value.keys and all(isinstance(k, ast.Constant) and k.value in slot for k in n.value.keys) \
+                    and all(isinstance(v_, ast.Subscript) for v_ in n.value.values):
+                for k, v_ in zip(n.value.keys, n.value.values):
+                    pairs.append((n, k.value, v_))
+        for n, k, v in pairs:
+            sel = "?"
             if isinstance(v, ast.Subscript):
-                s = v.slice
-                sel = s.attr if isinstance(s, ast.Attribute) and norm(s.value) == "self" else (None if isinstance(s, ast.Name) and s.id == "z" else "?")
-            n_slots += 1
+                sl = v.slice
+                sel = sl.attr if isinstance(sl, ast.Attribute) and norm(sl.value) == "self" else (None if isinstance(sl, ast.Name) and sl.id == zvar else "?")
             if k in slot and sel in slot[k] and not (sel is None and k != "y"):
-                rr.ok("das[%r] <- %s" % (k, norm(v)), "das|%s|%s" % (k, norm(v)))
-            else:
-                rr.bad(ctx.finding(rid_roles, gen, n, "the %r series is taken from `%s`: the drawn %s values are another variable's" % (k, norm(v), k), construct="slot %s <- %s" % (k, norm(v))), "slot %s" % k)
-    need(n_slots >= 8, "anchor lost: das[...] assignments in gen_xy (%d)" % n_slots)
+                seen_slots.add(k)
+                rr.ok("%s[%r] <- %s" % (norm(n.targets[0].value) if isinstance(n.targets[0], ast.Subscript) else norm(n.targets[0]), k, norm(v)), "das|%s|%s" % (k, norm(v)))
+            elif k in slot and sel != "?":
+                rr.bad(ctx.finding(rid_roles, h_, n, "the %r series is taken from `%s`: the drawn %s values are another variable's" % (k, norm(v), k), construct="slot %s <- %s" % (k, norm(v))), "slot %s" % k)
+            elif k in slot:
+                raise AnalysisError("idiom changed: the %r series is `%s`" % (k, norm(v)[:50]))
+    if not rr.findings:
+        need(seen_slots == set(slot), "anchor lost: series slots found %s" % sorted(seen_slots))
     sinks = [
         (MPL + ".LinePlot.plot_lines", "plot", {0: "x", 1: "y"}, {}),
         (MPL + ".LinePlot.plot_lines", "errorbar", {0: "x", 1: "y"}, {"yerr": "ye", "xerr": "xe"}),
@@ -414,26 +501,50 @@ def c17_data_rules(ctx, rid_roles, rid_mask, rid_lock, rid_color):
 
     # ---- mask
     rm = ctx.rule(rid_mask, "each series is filtered by exactly isfinite(x) & isfinite(y); histograms by isfinite(x)", floor=4)
-    masks = sorted((n for n in walk_shallow(gen.node) if isinstance(n, (ast.Assign, ast.AugAssign)) and norm(n.targets[0] if isinstance(n, ast.Assign) else n.target) == "not_null"), key=lambda n: n.lineno)
-    txt = [norm(m) for m in masks]
-    if txt == ["not_null = np.isfinite(data['x'])", "not_null &= np.isfinite(data['y'])"]:
-        rm.ok("mask = isfinite(x) & isfinite(y), nothing else")
+    # the mask variable = the subscript with which data['x'] is filtered
+    fx = [n for n in walk_shallow(gen.node) if isinstance(n, ast.Assign) and isinstance(n.targets[0], ast.Subscript) and norm(n.targets[0].value) == "data" and isinstance(n.value, ast.Subscript)
+          and norm(n.value.value) == norm(n.targets[0]) and isinstance(n.value.slice, ast.Name)]
+    loop_filter = [lp_ for lp_ in walk_shallow(gen.node) if isinstance(lp_, ast.For) and isinstance(lp_.target, ast.Name) and len(lp_.body) == 1 and isinstance(lp_.body[0], ast.Assign)
+                   and norm(lp_.body[0].targets[0]) == "data[%s]" % lp_.target.id and isinstance(lp_.body[0].value, ast.Subscript) and norm(lp_.body[0].value.value) == "data[%s]" % lp_.target.id
+                   and isinstance(lp_.body[0].value.slice, ast.Name) and norm(lp_.iter) in ("data", "list(data)", "tuple(data)", "data.keys()", "list(data.keys())")]
+    mnames = {n.value.slice.id for n in fx} | {lp_.body[0].value.slice.id for lp_ in loop_filter}
+    if not mnames:
+        rm.bad(ctx.finding(rid_mask, gen, gen.node, "no yielded array is filtered by a point mask: non-finite points are drawn / passed on", construct="mask-application"), "mask application")
+        mname = None
     else:
-        rm.bad(ctx.finding(rid_mask, gen, masks[-1] if masks else gen.node, "the point mask is built by %s, not exactly isfinite(x) & isfinite(y): points whose (x, y) are both finite are dropped (or non-finite ones kept)" % txt, construct="mask-definition"), "mask definition")
-    filt = {}
-    for n in walk_shallow(gen.node):
-        if isinstance(n, ast.Assign) and isinstance(n.targets[0], ast.Subscript) and norm(n.targets[0].value) == "data" and isinstance(n.value, ast.Subscript) and norm(n.value.slice) == "not_null":
-            filt[n.targets[0].slice.value] = norm(n.value.value)
-    want = {k: "data[%r]" % k for k in ("x", "y", "c", "ye", "xe")}
-    if filt == want:
-        rm.ok("x, y, c, ye, xe are all filtered with the same mask")
-    else:
-        rm.bad(ctx.finding(rid_mask, gen, gen.node, "not every yielded array is filtered by the point mask (filtered: %s): series components get out of step" % sorted(filt), construct="mask-application"), "mask application")
+        need(len(mnames) == 1, "idiom changed: several point masks in gen_xy (%s)" % sorted(mnames))
+        mname = mnames.pop()
+    if mname is not None:
+        masks = sorted((n for n in walk_shallow(gen.node) if isinstance(n, (ast.Assign, ast.AugAssign)) and norm(n.targets[0] if isinstance(n, ast.Assign) else n.target) == mname), key=lambda n: n.lineno)
+        need(masks and isinstance(masks[0], ast.Assign), "idiom changed: definition of the point mask `%s`" % mname)
+        terms, wrong = _mask_terms(gen, masks, "data")
+        if wrong:
+            rm.bad(ctx.finding(rid_mask, gen, wrong[0], "the point mask is built with `%s` (%s), not exactly isfinite(x) & isfinite(y): points whose (x, y) are both finite are dropped, or non-finite ones kept" % (norm(wrong[0])[:60], wrong[1]), construct="mask-definition"), "mask definition")
+        elif terms == {"x", "y"}:
+            rm.ok("mask = isfinite(x) & isfinite(y), nothing else")
+        else:
+            rm.bad(ctx.finding(rid_mask, gen, masks[-1], "the point mask requires finiteness of %s, not exactly of x and y: %s" % (sorted(terms), "points with a non-finite coordinate are kept" if not {"x", "y"} <= terms else "points whose (x, y) are both finite are dropped"), construct="mask-definition"), "mask definition")
+        if loop_filter:
+            rm.ok("every yielded array is filtered with the same mask (loop over data)")
+        else:
+            filt = {n.targets[0].slice.value for n in fx if isinstance(n.targets[0].slice, ast.Constant)}
+            for n in fx:
+                if isinstance(n.targets[0].slice, ast.Name):
+                    for p_ in _parents(n):
+                        if isinstance(p_, ast.For) and norm(p_.target) == n.targets[0].slice.id and isinstance(p_.iter, (ast.Tuple, ast.List)) and all(isinstance(x, ast.Constant) for x in p_.iter.elts):
+                            filt |= {x.value for x in p_.iter.elts}
+            present = set(seen_slots)
+            need(present >= {"x", "y"}, "anchor lost: das[...] assignments in gen_xy")
+            if filt >= present:
+                rm.ok("%s are all filtered with the same mask" % ", ".join(sorted(present)))
+            else:
+                rm.bad(ctx.finding(rid_mask, gen, gen.node, "not every yielded array is filtered by the point mask (filtered: %s, yielded: %s): series components get out of step" % (sorted(filt), sorted(present)), construct="mask-application"), "mask application")
     # the per-series arrays are aligned by dimension name (xr.broadcast) before they are flattened
     fills = [lp_ for lp_ in walk_shallow(gen.node) if isinstance(lp_, ast.For) and any(isinstance(st, ast.Assign) and isinstance(st.targets[0], ast.Subscript) and norm(st.targets[0].value) == "data" for st in ast.walk(lp_))
              and "das" in norm(lp_.iter)]
-    need(fills, "anchor lost: the loop filling `data` from `das` in gen_xy")
-    for lp_ in fills:
+    comps = [n.value.generators[0] for n in walk_shallow(gen.node) if isinstance(n, ast.Assign) and norm(n.targets[0]) == "data" and isinstance(n.value, ast.DictComp) and len(n.value.generators) == 1 and "das" in norm(n.value.generators[0].iter)]
+    need(fills or comps, "anchor lost: the loop filling `data` from `das` in gen_xy")
+    for lp_ in fills + comps:
         if "broadcast(" in norm(lp_.iter):
             rm.ok("data[k] is filled from xr.broadcast(*das.values()): x, y, c and errors are aligned by dimension name", norm(lp_.iter))
         else:
@@ -453,16 +564,33 @@ def c17_data_rules(ctx, rid_roles, rid_mask, rid_lock, rid_color):
     elif how in ("skippable", "repeated"):
         rm.bad(ctx.finding(rid_mask, gen, ys[0], "the yield of a series is %s within one iteration over the z values: the number of series no longer equals the number of z values, so every later series is drawn with the label, colour and marker of another z value" % how, construct="one-series-per-z"), "one per z")
     else:
-        rm.bad(ctx.finding(rid_mask, gen, gen.node, "the generator does not yield exactly one series per z value", construct="one-series-per-z"), "one per z")
+        raise AnalysisError("idiom changed: the series generator's yield structure (%d yields, %s)" % (len(ys), how))
     hx = P.methods.get("prepare_x_vals_histogram")
     gx = hx.nested.get("gen_x") if hx else None
     need(gx is not None, "anchor lost: gen_x")
     ctx.touch(gx)
     yv = [n for n in walk_shallow(gx.node) if isinstance(n, ast.Expr) and isinstance(n.value, ast.Yield)]
-    if len(yv) == 1 and norm(yv[0].value.value) == "{'x': x[np.isfinite(x)]}":
-        rm.ok("histogram series = the finite values of x")
+    need(len(yv) == 1 and isinstance(yv[0].value.value, ast.Dict) and len(yv[0].value.value.keys) == 1, "idiom changed: the histogram series yield")
+    hv = yv[0].value.value.values[0]
+    if isinstance(hv, ast.Name) and single_def(gx, hv.id) is not None:
+        hv = single_def(gx, hv.id)[1]
+    if isinstance(hv, ast.Subscript) and isinstance(hv.value, ast.Name):
+        mexpr = hv.slice
+        mst = [ast.Assign(targets=[ast.Name(id="_m", ctx=ast.Store())], value=mexpr)]
+        if isinstance(mexpr, ast.Name):
+            mst = sorted((n for n in walk_shallow(gx.node) if isinstance(n, (ast.Assign, ast.AugAssign)) and norm(n.targets[0] if isinstance(n, ast.Assign) else n.target) == mexpr.id), key=lambda n: n.lineno)
+            need(mst, "idiom changed: histogram mask `%s`" % mexpr.id)
+        terms, wrong = _mask_terms(gx, mst, "\x00")
+        if wrong:
+            rm.bad(ctx.finding(rid_mask, gx, yv[0], "the histogram series is filtered with `%s` (%s), not by isfinite" % (norm(wrong[0])[:50], wrong[1]), construct="hist-mask"), "hist mask")
+        elif terms == {hv.value.id}:
+            rm.ok("histogram series = the finite values of x")
+        else:
+            rm.bad(ctx.finding(rid_mask, gx, yv[0], "the histogram series `%s` is filtered by the finiteness of %s" % (hv.value.id, sorted(terms)), construct="hist-mask"), "hist mask")
+    elif isinstance(hv, ast.Name) or (isinstance(hv, ast.Call) and "flatten" in norm(hv)):
+        rm.bad(ctx.finding(rid_mask, gx, yv[0], "the histogram series is yielded without the finite-values filter: NaN / inf reach the binning", construct="hist-mask"), "hist mask")
     else:
-        rm.bad(ctx.finding(rid_mask, gx, yv[0] if yv else gx.node, "the histogram series is not exactly the finite values (`x[np.isfinite(x)]`)", construct="hist-mask"), "hist mask")
+        raise AnalysisError("idiom changed: histogram series `%s`" % norm(hv)[:60])
 
     # ---- lock-step iterators
     rl = ctx.rule(rid_lock, "one drawn series per z value: the label iterator advances once and one artist is created per series on every path", floor=2)
@@ -632,42 +760,158 @@ def c17_data_rules(ctx, rid_roles, rid_mask, rid_lock, rid_color):
     return rr
 
 
+def _grid_shape(e):
+    """(outer (var, iterable) | None, inner (var, iterable) | None, cell expr) of the nested list a grid split returns"""
+    outer = inner = None
+    if isinstance(e, ast.ListComp) and len(e.generators) == 1 and isinstance(e.generators[0].target, ast.Name) and not e.generators[0].ifs:
+        outer = (e.generators[0].target.id, e.generators[0].iter)
+        row = e.elt
+    elif isinstance(e, ast.List) and len(e.elts) == 1:
+        row = e.elts[0]
+    else:
+        return None
+    if isinstance(row, ast.ListComp) and len(row.generators) == 1 and isinstance(row.generators[0].target, ast.Name) and not row.generators[0].ifs:
+        inner = (row.generators[0].target.id, row.generators[0].iter)
+        cell = row.elt
+    elif isinstance(row, ast.List) and len(row.elts) == 1:
+        cell = row.elts[0]
+    else:
+        return None
+    return outer, inner, cell
+
+
 def panel_rule(ctx, rid):
-    rr = ctx.rule(rid, "grid panels: outer index = row coordinate, inner = column, consistent in the data split, GridSpec position and titles", floor=4)
+    from ..pathcond import path_tests
+    from ..util import IntEval
+    rr = ctx.rule(rid, "grid panels: outer index = row coordinate, inner = column, consistent in the data split, GridSpec position and titles; every column / row of panels carries its title", floor=6)
     prog = ctx.prog
     f = prog.need_func(CORE + ".calc_row_col_datasets")
     ctx.touch(f)
-    rets = [s for s in walk_shallow(f.node) if isinstance(s, ast.Return)]
-    want = {"[[ds.loc[{col: c}] for c in cs]]", "[[ds.loc[{row: r}]] for r in rs]", "[[ds.loc[{row: r, col: c}] for c in cs] for r in rs]"}
-    got = {norm(r.value.elts[0]) for r in rets if isinstance(r.value, ast.Tuple)}
-    if got == want and norm(single_def(f, "rs")[1]) == "ds[row].values" and norm(single_def(f, "cs")[1]) == "ds[col].values":
-        rr.ok("calc_row_col_datasets: rows outer (ds[row].values order), columns inner, each cell = ds.loc[{row: r, col: c}]")
-    else:
-        rr.bad(ctx.finding(rid, f, f.node, "calc_row_col_datasets no longer nests rows (outer) over columns (inner) with each cell selected by its own (row, col) coordinates: %s" % sorted(got), construct="row-col-split"), "split")
+    need(len(f.positional) >= 3, "idiom changed: calc_row_col_datasets signature")
+    p_ds, p_row, p_col = f.positional[:3]
+    rets = [s for s in walk_shallow(f.node) if isinstance(s, ast.Return) and isinstance(s.value, ast.Tuple) and len(s.value.elts) == 3]
+    need(len(rets) >= 3, "anchor lost: the three grid shapes returned by calc_row_col_datasets")
+
+    def coord_of(it):
+        """which of row / col does the iterable enumerate the coordinate values of?"""
+        e = it
+        if isinstance(e, ast.Name):
+            d = single_def(f, e.id)
+            need(d is not None, "idiom changed: `%s` in calc_row_col_datasets" % e.id)
+            e = d[1]
+        while isinstance(e, ast.Call) and norm(e.func) in ("list", "tuple", "np.asarray", "np.array") and len(e.args) == 1 and not e.keywords:
+            e = e.args[0]
+        t = norm(e)
+        for pname in (p_row, p_col):
+            if t in ("%s[%s].values" % (p_ds, pname), "%s[%s].data" % (p_ds, pname), "%s.%s.values" % (p_ds, pname)):
+                return pname
+        if isinstance(e, ast.Call) and norm(e.func) in ("np.unique", "numpy.unique", "sorted", "reversed", "set", "np.sort", "np.flip") and e.args:
+            inner_ = norm(e.args[0])
+            for pname in (p_row, p_col):
+                if inner_ in ("%s[%s].values" % (p_ds, pname), "%s[%s].data" % (p_ds, pname)):
+                    rr.bad(ctx.finding(rid, f, e, "the grid is split over `%s` while the panel titles are taken from %s[%s].values at the panel's index: order / multiplicity can differ, so panels are titled with another coordinate" % (t, p_ds, pname), construct="row-col-split"), "split order")
+                    return pname
+        raise AnalysisError("idiom changed: grid iterable `%s`" % t)
+    seen = set()
+    for rt in rets:
+        sh = _grid_shape(rt.value.elts[0])
+        need(sh is not None, "idiom changed: grid returned as `%s`" % norm(rt.value.elts[0])[:60])
+        outer, inner, cell = sh
+        need(isinstance(cell, ast.Subscript) and isinstance(cell.slice, ast.Dict) and norm(cell.value) in (p_ds + ".loc", p_ds + ".sel") or (isinstance(cell, ast.Call) and norm(cell.func) == p_ds + ".sel"), "idiom changed: grid cell `%s`" % norm(cell)[:60])
+        need(isinstance(cell, ast.Subscript), "idiom changed: grid cell `%s`" % norm(cell)[:60])
+        keys = {norm(k): norm(v) for k, v in zip(cell.slice.keys, cell.slice.values)}
+        ok = True
+        for level, lv, want in (("outer", outer, p_row), ("inner", inner, p_col)):
+            if lv is None:
+                if want in keys:
+                    ok = False
+                    rr.bad(ctx.finding(rid, f, rt, "the cell selects along `%s` although the %s level of the grid does not iterate it" % (want, level), construct="row-col-split"), "split")
+                continue
+            var, it = lv
+            co = coord_of(it)
+            if co != want:
+                ok = False
+                rr.bad(ctx.finding(rid, f, rt, "the %s level of the returned grid iterates the `%s` coordinate; rows must be outer and columns inner (GridSpec position gs[i, j] and the titles assume it)" % (level, co), construct="row-col-split"), "split")
+            elif keys.get(want) != var:
+                ok = False
+                rr.bad(ctx.finding(rid, f, rt, "the cell for (%s) is selected with {%s: %s}: not its own coordinate" % (var, want, keys.get(want)), construct="row-col-split"), "split")
+        if ok:
+            seen.add((outer is not None, inner is not None))
+            rr.ok("grid %s: each cell selected by its own coordinates, rows outer / columns inner" % ("rows x cols" if outer and inner else "one row of columns" if inner else "one column of rows"))
+    if not rr.findings:
+        need(seen == {(True, True), (True, False), (False, True)}, "idiom changed: grid shapes %s" % sorted(seen))
     mp = prog.need_func(MPL + ".mpl_multi_plot")
     mf = mp.nested.get("multi_plotter")
     need(mf is not None, "anchor lost: multi_plotter")
     ctx.touch(mf)
-    loops = [n for n in walk_shallow(mf.node) if isinstance(n, ast.For)]
-    outer = [l for l in loops if norm(l.iter) == "enumerate(ds_r_c)"]
-    inner = [l for l in loops if norm(l.iter) == "enumerate(ds_r)"]
-    if outer and inner and norm(outer[0].target) == "(i, ds_r)" and norm(inner[0].target) == "(j, sub_ds)" and inner[0] in outer[0].body:
-        rr.ok("multi_plotter: i enumerates rows, j enumerates the row's columns")
-    else:
-        raise AnalysisError("idiom changed: multi_plotter loops")
-    txt = " ".join(norm(s) for s in inner[0].body)
-    checks = [("subplot=gs[i, j]", "GridSpec position gs[i, j]"), ("col_val = prettify(ds[col].values[j])", "column title from ds[col].values[j]"),
-              ("row_val = prettify(ds[row].values[i])", "row title from ds[row].values[i]")]
-    for needle, what in checks:
-        if needle in txt:
-            rr.ok("multi_plotter: %s" % what)
-        else:
-            rr.bad(ctx.finding(rid, mf, inner[0], "multi_plotter: %s is no longer `%s`: a slice is drawn in the panel (or under the title) of another coordinate" % (what, needle), construct="panel " + what), what)
+    split = [n for n in walk_shallow(mf.node) if isinstance(n, ast.Assign) and isinstance(n.value, ast.Call) and norm(n.value.func) == "calc_row_col_datasets"]
+    need(len(split) == 1 and isinstance(split[0].targets[0], ast.Tuple) and len(split[0].targets[0].elts) == 3, "anchor lost: the grid split in multi_plotter")
+    gname, nrn, ncn = (norm(e) for e in split[0].targets[0].elts)
+    loops = [n for n in walk_shallow(mf.node) if isinstance(n, ast.For) and isinstance(n.iter, ast.Call) and norm(n.iter.func) == "enumerate" and isinstance(n.target, ast.Tuple) and len(n.target.elts) == 2]
+    outer = [l for l in loops if norm(l.iter.args[0]) == gname]
+    need(len(outer) == 1, "idiom changed: multi_plotter loops")
+    iv, rowds = (norm(e) for e in outer[0].target.elts)
+    inner = [l for l in loops if norm(l.iter.args[0]) == rowds and any(l is x for x in ast.walk(outer[0]))]
+    need(len(inner) == 1, "idiom changed: multi_plotter loops")
+    jv, subds = (norm(e) for e in inner[0].target.elts)
+    rr.ok("multi_plotter: %s enumerates rows, %s enumerates the row's columns" % (iv, jv))
     calls = [c for c in ast.walk(inner[0]) if isinstance(c, ast.Call) and isinstance(c.func, ast.Name) and c.func.id == "fn"]
-    if calls and norm(calls[0].args[0]) == "sub_ds":
+    need(len(calls) == 1, "anchor lost: the panel plot call in multi_plotter")
+    if calls[0].args and norm(calls[0].args[0]) == subds:
         rr.ok("each panel plots its own sub-dataset")
     else:
-        rr.bad(ctx.finding(rid, mf, inner[0], "the panel plot does not receive the panel's own sub-dataset", construct="panel-data"), "panel data")
+        rr.bad(ctx.finding(rid, mf, calls[0], "the panel plot does not receive the panel's own sub-dataset", construct="panel-data"), "panel data")
+    sp = arg(calls[0], None, "subplot")
+    need(sp is not None and isinstance(sp, ast.Subscript) and isinstance(sp.slice, ast.Tuple) and len(sp.slice.elts) == 2, "idiom changed: subplot position of a panel")
+    pos = tuple(norm(e) for e in sp.slice.elts)
+    if pos == (iv, jv):
+        rr.ok("GridSpec position gs[%s, %s]" % pos)
+    elif pos == (jv, iv):
+        rr.bad(ctx.finding(rid, mf, sp, "the panel of row %s, column %s is placed at gs[%s, %s]: the grid is transposed" % (iv, jv, pos[0], pos[1]), construct="panel GridSpec position gs[i, j]"), "gridspec")
+    else:
+        raise AnalysisError("idiom changed: subplot position `%s`" % norm(sp))
+    # titles: value from the coordinate at the panel's own index, on a panel of every column / row
+    a = mf.node.args
+    kwn = [x.arg for x in a.kwonlyargs] + [x.arg for x in a.args]
+    need("row" in kwn and "col" in kwn, "idiom changed: multi_plotter row / col parameters")
+    for co, idx, other, what in (("col", jv, iv, "column"), ("row", iv, jv, "row")):
+        subs = [n for n in ast.walk(inner[0]) if isinstance(n, ast.Subscript) and norm(n.value) in ("ds[%s].values" % co, "ds[%s].data" % co)]
+        need(subs, "anchor lost: the %s title value in multi_plotter" % what)
+        for s_ in subs:
+            k = norm(s_.slice)
+            if k == idx:
+                rr.ok("%s title from ds[%s].values[%s]" % (what, co, idx))
+            elif k == other:
+                rr.bad(ctx.finding(rid, mf, s_, "the %s title is taken at index `%s` (the %s index): panels are titled with another panel's coordinate" % (what, k, "row" if what == "column" else "column"), construct="panel %s title" % what), "%s title" % what)
+            else:
+                raise AnalysisError("idiom changed: %s title value `%s`" % (what, norm(s_)))
+            # where is the title statement reached?  evaluated on a window of grid sizes
+            st = s_
+            while not isinstance(st, ast.stmt):
+                st = st._parent
+            tests = [(ast.parse(_exp_local(mf, t_), mode="eval").body, pol) for t_, pol in path_tests(inner[0], st)]
+            ev = IntEval({})
+            okall = True
+            for nr in (1, 2, 3):
+                for nc in (1, 2, 3):
+                    lines = range(nc) if what == "column" else range(nr)
+                    for fixed in lines:
+                        hit = False
+                        for free in (range(nr) if what == "column" else range(nc)):
+                            i_, j_ = (free, fixed) if what == "column" else (fixed, free)
+                            stt = {iv: i_, jv: j_, nrn: nr, ncn: nc, "row": "r" if (what == "row" or nr > 1) else None, "col": "c" if (what == "column" or nc > 1) else None}
+                            try:
+                                if all(bool(ev.ev(t_, stt)) == pol for t_, pol in tests):
+                                    hit = True
+                            except AnalysisError as e_:
+                                raise AnalysisError("idiom changed: the condition of the %s title in multi_plotter (%s)" % (what, e_))
+                        if not hit:
+                            okall = False
+                            bad_at = (nr, nc, fixed)
+            if okall:
+                rr.ok("every %s of a 1..3 x 1..3 grid has a panel carrying its title" % what)
+            else:
+                rr.bad(ctx.finding(rid, mf, st, "in a %d x %d grid no panel of %s %d carries the %s title (condition `%s`): panels are not titled with their coordinate" % (bad_at[0], bad_at[1], what, bad_at[2], what, " and ".join(("" if pol else "not ") + norm(t_) for t_, pol in tests)[:80]), construct="panel %s title condition" % what), "%s title condition" % what)
     return rr
 
 
@@ -744,11 +988,26 @@ def c18_rules(ctx):
             rr.ok("plot_lines: ax.fill_between x <- x")
         else:
             rr.bad(ctx.finding("C18.R2", pl, c, "fill_between x slot receives %s" % sorted(got), construct="sink fill_between x"), "fill_between x")
-    zd = [n for n in walk_shallow(ph.node) if isinstance(n, ast.Assign) and norm(n.targets[0]) == "zdata" and "isel(loc)" in norm(n.value)]
-    if zd and all(".transpose(self.y, self.x)" in norm(n.value) and "self.ds[self.z]" in norm(n.value) for n in zd):
-        rr.ok("plot_heatmap: mesh values = ds[z].isel(loc).transpose(y, x) by name")
-    else:
-        rr.bad(ctx.finding("C18.R2", ph, zd[0] if zd else ph.node, "the heat-map values are not ds[z].isel(loc).transpose(self.y, self.x)", construct="heatmap-values"), "heatmap values")
+    zsrc = [n.value for n in walk_shallow(ph.node) if isinstance(n, ast.Assign) and ("isel(loc)" in norm(n.value) or ".sel(loc)" in norm(n.value)) and "self.ds" in norm(n.value)]
+    need(zsrc, "anchor lost: the per-panel selection of the heat-map values")
+    for e in zsrc:
+        tr = [c for c in ast.walk(e) if isinstance(c, ast.Call) and isinstance(c.func, ast.Attribute) and c.func.attr == "transpose"]
+        var = [x for x in ast.walk(e) if isinstance(x, ast.Subscript) and norm(x.value) == "self.ds"]
+        need(len(var) == 1, "idiom changed: heat-map values `%s`" % norm(e)[:60])
+        vk = norm(var[0].slice)
+        if vk != "self.z":
+            if vk in ("self.x", "self.y"):
+                rr.bad(ctx.finding("C18.R2", ph, e, "the heat-map values are taken from `%s`, not the z variable" % norm(var[0]), construct="heatmap-values"), "heatmap values")
+                continue
+            raise AnalysisError("idiom changed: heat-map variable `%s`" % vk)
+        if not tr:
+            rr.bad(ctx.finding("C18.R2", ph, e, "the heat-map values `%s` are not transposed to (y, x) by name: the orientation of the mesh depends on the order the dimensions happen to be stored in" % norm(e)[:60], construct="heatmap-values"), "heatmap values")
+        elif [norm(a) for a in tr[0].args] == ["self.y", "self.x"]:
+            rr.ok("plot_heatmap: mesh values = ds[z].isel(loc).transpose(y, x) by name", norm(e))
+        elif [norm(a) for a in tr[0].args] == ["self.x", "self.y"]:
+            rr.bad(ctx.finding("C18.R2", ph, e, "the heat-map values are transposed to (x, y): pcolormesh expects rows = y, so the map is drawn transposed", construct="heatmap-values"), "heatmap values")
+        else:
+            raise AnalysisError("idiom changed: transpose(%s) of the heat-map values" % ", ".join(norm(a) for a in tr[0].args))
 
     # ---- R3 one ax.plot per visited location
     r3 = ctx.rule("C18.R3", "exactly one ax.plot per visited location, except all-null slices which are skipped before any artist is created", floor=2)
@@ -795,38 +1054,93 @@ def c18_rules(ctx):
             else:
                 raise AnalysisError("idiom changed: panel of a slice in %s is `%s`" % (f.name, got))
     sub = [c for c in ast.walk(I.node) if isinstance(c, ast.Call) and norm(c.func).endswith("subplots")]
-    if sub and any('self.sizes["row"]' in norm(c).replace("'", '"') and norm(c).replace("'", '"').index('self.sizes["row"]') < norm(c).replace("'", '"').index('self.sizes["col"]') for c in sub if 'self.sizes["col"]' in norm(c).replace("'", '"')):
+    need(len(sub) == 1, "anchor lost: the subplots call creating the axes grid")
+    sa = [norm(a).replace("'", '"') for a in sub[0].args[:2]] + [norm(arg(sub[0], None, k)).replace("'", '"') if arg(sub[0], None, k) is not None else None for k in ("nrows", "ncols")]
+    nr_ = sa[0] if len(sub[0].args) > 0 else sa[-2]
+    nc_ = sa[1] if len(sub[0].args) > 1 else sa[-1]
+    need(nr_ is not None and nc_ is not None, "idiom changed: subplots(%s)" % norm(sub[0])[:60])
+    if 'self.sizes["row"]' in nr_ and 'self.sizes["col"]' in nc_:
         r4.ok("subplots(sizes[row], sizes[col])")
+    elif 'self.sizes["col"]' in nr_ and 'self.sizes["row"]' in nc_:
+        r4.bad(ctx.finding("C18.R4", init, sub[0], "the axes grid is created as (rows, cols) = (sizes['col'], sizes['row']): transposed with respect to axs[i_row, j_col]", construct="subplots-shape"), "subplots shape")
     else:
-        r4.bad(ctx.finding("C18.R4", init, sub[0] if sub else init.node, "the axes grid is not created as (rows, cols) = (sizes['row'], sizes['col'])", construct="subplots-shape"), "subplots shape")
+        raise AnalysisError("idiom changed: subplots(%s, %s)" % (nr_, nc_))
     da = I.methods.get("do_axes_formatting")
     if da is not None:
         ctx.touch(da)
-        t = " ".join(norm(s) for s in da.node.body).replace("'", '"')
-        if 'self.domains["col"][j]' in t and 'self.domains["row"][i]' in t:
-            r4.ok("panel titles: domains['col'][j] / domains['row'][i]")
-        else:
-            r4.bad(ctx.finding("C18.R4", da, da.node, "panel titles are not taken from domains['col'][j] / domains['row'][i]", construct="panel-titles"), "titles")
+        loops_ = [n for n in walk_shallow(da.node) if isinstance(n, ast.For) and "self.axs" in norm(n.iter) and isinstance(n.target, ast.Tuple) and isinstance(n.target.elts[0], ast.Tuple) and len(n.target.elts[0].elts) == 2]
+        need(len(loops_) == 1, "idiom changed: the panel loop of do_axes_formatting")
+        iv_, jv_ = (norm(e) for e in loops_[0].target.elts[0].elts)
+        hits = 0
+        for n in ast.walk(loops_[0]):
+            if isinstance(n, ast.Subscript) and isinstance(n.value, ast.Subscript) and norm(n.value.value) == "self.domains" and isinstance(n.value.slice, ast.Constant) and n.value.slice.value in ("row", "col"):
+                want_ = iv_ if n.value.slice.value == "row" else jv_
+                other_ = jv_ if n.value.slice.value == "row" else iv_
+                if norm(n.slice) == want_:
+                    hits += 1
+                    r4.ok("panel title: domains[%r][%s]" % (n.value.slice.value, want_))
+                elif norm(n.slice) == other_:
+                    r4.bad(ctx.finding("C18.R4", da, n, "the %s title of panel (%s, %s) is domains[%r][%s]: the other axis' index, so panels are titled with another panel's coordinate" % (n.value.slice.value, iv_, jv_, n.value.slice.value, other_), construct="panel-titles"), "titles")
+                else:
+                    raise AnalysisError("idiom changed: panel title index `%s`" % norm(n))
+        if hits < 2 and not r4.findings:
+            raise AnalysisError("anchor lost: panel titles from domains['col'] / domains['row'] in do_axes_formatting")
 
     # ---- R5 style <-> key share one index
     r5 = ctx.rule("C18.R5", "for each mapped property the style value and the legend key use the same index (equal coordinates share a style)", floor=3)
+    loop5 = [n for n in walk_shallow(pl.node) if isinstance(n, ast.For) and "self.ranges" in norm(n.iter)]
+    need(len(loop5) == 1, "anchor lost: location loop in plot_lines")
+    fam5 = [pl] + [I.methods[c.func.attr] for c in ast.walk(loop5[0]) if isinstance(c, ast.Call) and isinstance(c.func, ast.Attribute) and norm(c.func.value) == "self" and c.func.attr in I.methods and I.methods[c.func.attr] is not imd]
+    n_props = 0
+    for f5 in fam5:
+        ctx.touch(f5)
+        uses = {}
+        for n in walk_shallow(f5.node):
+            if isinstance(n, ast.Subscript) and isinstance(n.ctx, ast.Load) and isinstance(n.value, ast.Subscript) and norm(n.value.value) in ("self.domains", "self.values"):
+                uses.setdefault(norm(n.value.slice).replace('"', "'"), []).append((norm(n.value.value)[5:], n))
+        for P_, lst in sorted(uses.items()):
+            idxs = {norm(n.slice) for _, n in lst}
+            kinds = {k for k, _ in lst}
+            if len(idxs) > 1:
+                r5.bad(ctx.finding("C18.R5", f5, lst[0][1], "the coordinate (domains[%s]) and the style value (values[%s]) of one property are looked up with different indices %s: a slice is styled as another coordinate than the one its legend entry names" % (P_, P_, sorted(idxs)), construct="style-index " + P_), "style index %s" % P_)
+                continue
+            ix = lst[0][1].slice
+            need(isinstance(ix, ast.Name), "idiom changed: index `%s` of domains / values[%s]" % (norm(ix), P_))
+            d_ = single_def(f5, ix.id)
+            need(d_ is not None and isinstance(d_[1], ast.Subscript) and norm(d_[1].value) == "loc", "idiom changed: `%s` is not loc[<dimension>] in %s" % (ix.id, f5.name))
+            key = d_[1].slice
+            if P_.startswith("'"):
+                want_key = "self." + P_.strip("'")
+                if norm(key) == want_key:
+                    n_props += 1
+                    r5.ok("%s: domains / values[%s] indexed by loc[%s]" % (f5.name, P_, want_key))
+                elif norm(key).startswith("self."):
+                    r5.bad(ctx.finding("C18.R5", f5, d_[0].ast, "the %s coordinate / style is looked up at the position of another mapped dimension (`loc[%s]`)" % (P_, norm(key)), construct="style-index " + P_), "style index %s" % P_)
+                else:
+                    raise AnalysisError("idiom changed: index of property %s is loc[%s]" % (P_, norm(key)))
+            else:
+                # a property variable: the dimension is getattr(self, <that variable>)
+                need(isinstance(key, ast.Name), "idiom changed: index of property %s is loc[%s]" % (P_, norm(key)))
+                dd = single_def(f5, key.id)
+                if dd is not None and isinstance(dd[1], ast.Call) and norm(dd[1].func) == "getattr" and len(dd[1].args) >= 2 and norm(dd[1].args[0]) == "self" and norm(dd[1].args[1]) == P_:
+                    n_props += 1
+                    r5.ok("%s: domains / values[%s] indexed by loc[getattr(self, %s)]" % (f5.name, P_, P_))
+                elif dd is not None and isinstance(dd[1], ast.Call) and norm(dd[1].func) == "getattr":
+                    r5.bad(ctx.finding("C18.R5", f5, dd[0].ast, "the dimension of property `%s` is taken from `%s`" % (P_, norm(dd[1])), construct="style-index " + P_), "style index %s" % P_)
+                else:
+                    raise AnalysisError("idiom changed: dimension of the property variable `%s`" % P_)
+    if not r5.findings:
+        need(n_props >= 3, "anchor lost: style / key look-ups of the mapped properties (%d found)" % n_props)
     t = method_text(ctx, pl).replace("'", '"')
-    pairs = [("idx = loc[dim]", "prop_in = self.domains[prop][idx]", "prop_out = self.values[prop][idx]"),
-             ("icolor = loc[self.color]", 'color_in = self.domains["color"][icolor]', None),
-             ("ihue = loc[self.hue]", 'hue_in = self.domains["hue"][ihue]', 'self.cmap_or_colors = self.values["hue"][ihue]')]
-    for a, b, c in pairs:
-        if a in t and b in t and (c is None or c in t):
-            r5.ok("`%s` feeds both `%s`%s" % (a, b, (" and `%s`" % c) if c else ""))
-        elif a in t and (b.split("[")[0] in t or (c and c.split("[")[0] in t)):
-            r5.bad(ctx.finding("C18.R5", pl, pl.node, "the style lookup and the key lookup of a mapped property no longer share one index (`%s`; `%s`; `%s`)" % (a, b, c), construct="style-index " + a), "style index %s" % a)
+    cc = [n for f5 in fam5 for n in walk_shallow(f5.node) if isinstance(n, ast.Subscript) and norm(n.value) == "self.cmap_or_colors" and isinstance(n.ctx, ast.Load)]
+    for n in cc:
+        d_ = single_def(enclosing_func_of(n, fam5), norm(n.slice)) if isinstance(n.slice, ast.Name) else None
+        if d_ is not None and norm(d_[1]) == "loc[self.color]":
+            r5.ok("colour style is looked up with the colour key's index")
+        elif d_ is not None and norm(d_[1]).startswith("loc[self."):
+            r5.bad(ctx.finding("C18.R5", pl, n, "the colour style is looked up at `%s`, not the colour key's index" % norm(d_[1]), construct="style-index color"), "style index color")
         else:
-            raise AnalysisError("idiom changed: style / key look-up of a mapped property (`%s`) not found in plot_lines or its helpers" % a)
-    if "color_out = self.cmap_or_colors[icolor]" in t and 'self.cmap_or_colors(self.values["color"][icolor])' in t:
-        r5.ok("colour style is looked up with the same icolor as the colour key")
-    elif "icolor" in t and "color_out" in t:
-        r5.bad(ctx.finding("C18.R5", pl, pl.node, "the colour style is not looked up with the colour key's index", construct="style-index color"), "style index color")
-    else:
-        raise AnalysisError("idiom changed: colour style look-up not found in plot_lines or its helpers")
+            raise AnalysisError("idiom changed: colour style look-up `%s`" % norm(n))
 
     # ---- R7 domains are read after the dataset's index along the dimension was fixed
     r7 = ctx.rule("C18.R7", "init_mapped_dim records the dimension's coordinates after every re-indexing (sel(order), dropna) of the dataset along it", floor=1)
@@ -862,25 +1176,123 @@ def c18_rules(ctx):
     # ---- R8 mask polarity
     r8 = ctx.rule("C18.R8", "join_across_missing: truthy -> x and y filtered by the both-non-null mask; falsy -> unfiltered (NaNs stay as gaps)", floor=2)
     gp = build_cfg(pl.node)
+    UNFILTERED = {"()", "...", "Ellipsis", "slice(None)", "np.s_[:]", "np.s_[...]"}
     for val, want in ((TRUTHY, "mask"), (FALSY, "()")):
         fl = Flow(gp, {"self.join_across_missing": val}).run()
         dm = [n for n in gp.nodes if n.id in fl.visited and n.kind == "stmt" and isinstance(n.ast, ast.Assign) and norm(n.ast.targets[0]) == "data_mask"]
-        if len(dm) == 1 and norm(dm[0].ast.value) == want:
-            r8.ok("join_across_missing %s -> data_mask = %s" % ("truthy" if val == TRUTHY else "falsy", want))
-        else:
-            r8.bad(ctx.finding("C18.R8", pl, dm[0].ast if dm else pl.node, "with join_across_missing %s the data mask is %s (expected %s): %s" % ("truthy" if val == TRUTHY else "falsy", [norm(d.ast.value) for d in dm], want,
+        need(dm, "anchor lost: `data_mask` in plot_lines")
+        kinds = set()
+        for d in dm:
+            dv = d.ast.value
+            if isinstance(dv, ast.IfExp):
+                tt = dv.test
+                neg_ = isinstance(tt, ast.UnaryOp) and isinstance(tt.op, ast.Not)
+                need(norm(tt.operand if neg_ else tt) == "self.join_across_missing", "idiom changed: data_mask = %s" % norm(dv)[:60])
+                dv = dv.body if ((val == TRUTHY) != neg_) else dv.orelse
+                d = type("N", (), {"ast": ast.Assign(targets=d.ast.targets, value=dv, lineno=d.ast.lineno), "id": d.id})()
+                dm = [d if x.id == d.id else x for x in dm]
+            vt = norm(dv)
+            if vt in UNFILTERED:
+                kinds.add("()")
+            elif isinstance(d.ast.value, ast.Name):
+                kinds.add("mask")
+            else:
+                raise AnalysisError("idiom changed: data_mask = %s" % vt[:50])
+        # the last definition on the path decides; with one reachable definition that is it
+        if len(dm) == 1 and kinds == {want}:
+            r8.ok("join_across_missing %s -> data_mask = %s" % ("truthy" if val == TRUTHY else "falsy", norm(dm[0].ast.value)))
+        elif len(dm) == 1:
+            r8.bad(ctx.finding("C18.R8", pl, dm[0].ast, "with join_across_missing %s the data mask is %s (expected %s): %s" % ("truthy" if val == TRUTHY else "falsy", [norm(d.ast.value) for d in dm], "the non-null mask" if want == "mask" else "no filtering",
                                "NaNs are kept although lines should join across them" if val == TRUTHY else "NaN gaps are removed although they should stay"), construct="mask-polarity %s" % want), "mask polarity %s" % want)
-    mk = [norm(n) for n in sorted((n for n in walk_shallow(pl.node) if isinstance(n, (ast.Assign, ast.AugAssign)) and norm(n.targets[0] if isinstance(n, ast.Assign) else n.target) == "mask"), key=lambda n: n.lineno)]
-    if mk == ["mask = ds_loc[self.y].notnull().values", "mask &= ds_loc[self.x].notnull().values"]:
-        r8.ok("mask = y non-null (& x non-null when x varies)")
+        else:
+            last = [d for d in dm if not any(o is not d and o.id in gp.reachable(start=d.id, skip_labels=("exc",)) and o.id in fl.visited for o in dm)]
+            lk = {"()" if norm(d.ast.value) in UNFILTERED else "mask" for d in last}
+            if lk == {want}:
+                r8.ok("join_across_missing %s -> data_mask ends as %s" % ("truthy" if val == TRUTHY else "falsy", want))
+            elif len(lk) == 1:
+                r8.bad(ctx.finding("C18.R8", pl, last[0].ast, "with join_across_missing %s the data mask ends as %s" % ("truthy" if val == TRUTHY else "falsy", sorted(lk)), construct="mask-polarity %s" % want), "mask polarity %s" % want)
+            else:
+                raise AnalysisError("idiom changed: several data_mask definitions reach ax.plot")
+    pcalls = [c for c in walk_shallow(pl.node) if isinstance(c, ast.Call) and isinstance(c.func, ast.Attribute) and c.func.attr == "plot" and norm(c.func.value) == "ax"]
+    need(len(pcalls) == 1 and len(pcalls[0].args) >= 2, "anchor lost: ax.plot(x, y) in plot_lines")
+
+    def filtered(e):
+        """(array expr, mask expr | None) of a plot argument, through single-definition locals"""
+        hops = 0
+        while isinstance(e, ast.Name) and hops < 4:
+            d_ = single_def(pl, e.id)
+            if d_ is None:
+                break
+            e = d_[1]
+            hops += 1
+        if isinstance(e, ast.Subscript) and isinstance(e.slice, ast.Name):
+            return e.value, e.slice.id
+        return e, None
+    (xa, xmk), (ya, ymk) = filtered(pcalls[0].args[0]), filtered(pcalls[0].args[1])
+    if xmk is not None and xmk == ymk:
+        r8.ok("x and y are filtered with the same mask `%s`" % xmk)
+    elif (xmk is None) != (ymk is None) or (xmk is not None and xmk != ymk):
+        r8.bad(ctx.finding("C18.R8", pl, pcalls[0], "x is filtered with `%s` and y with `%s`: the two arrays of a line get out of step" % (xmk, ymk), construct="mask-apply"), "mask apply")
     else:
-        r8.bad(ctx.finding("C18.R8", pl, pl.node, "the null mask is %s" % mk, construct="mask-def"), "mask def")
-    xm = single_def(pl, "xmdata")
-    ym = single_def(pl, "ymdata")
-    if xm and ym and norm(xm[1]) == "xdata[data_mask]" and norm(ym[1]) == "ds_loc[self.y].values[data_mask]":
-        r8.ok("x and y are filtered with the same data_mask")
-    else:
-        r8.bad(ctx.finding("C18.R8", pl, pl.node, "x and y are not filtered with the same data_mask", construct="mask-apply"), "mask apply")
+        raise AnalysisError("idiom changed: the x / y arguments of ax.plot are not `array[mask]`")
+    # the mask the data mask is taken from when joining across missing values
+    if xmk is not None:
+        srcs = {norm(a_) for _, v in assignments_to(pl, xmk) if v is not None for a_ in ([v.body, v.orelse] if isinstance(v, ast.IfExp) else [v]) if isinstance(a_, ast.Name)}
+        need(len(srcs) == 1, "idiom changed: the source of `%s`" % xmk)
+        mname = srcs.pop()
+        mst = sorted((n for n in walk_shallow(pl.node) if isinstance(n, (ast.Assign, ast.AugAssign)) and norm(n.targets[0] if isinstance(n, ast.Assign) else n.target) == mname), key=lambda n: n.lineno)
+        need(mst and isinstance(mst[0], ast.Assign), "idiom changed: definition of `%s`" % mname)
+        roles_seen = []
+        wrong = None
+        caps = [n for n in gp.nodes if n.kind == "stmt" and isinstance(n.ast, ast.Assign) and norm(n.ast.targets[0]) == xmk and mname in names_in(n.ast.value)]
+        for cp in caps:
+            after = gp.reachable(start=cp.id, blocked_nodes=[h.id for h in gp.nodes if h.kind == "for"], skip_labels=("exc",))
+            late = [n for n in gp.nodes if n.id in after and n.id != cp.id and n.kind == "stmt" and isinstance(n.ast, ast.Assign) and norm(n.ast.targets[0]) == mname]
+            if late:
+                wrong = (late[0].ast, "`%s` re-binds the mask after `%s` captured it: the x / y arrays are filtered with the earlier, incomplete mask" % (norm(late[0].ast)[:50], norm(cp.ast)[:40]))
+        for st in ([] if wrong else mst):
+            if isinstance(st, ast.AugAssign) and not isinstance(st.op, ast.BitAnd):
+                wrong = (st, "`%s`: the masks are not and-ed" % norm(st)[:40])
+                break
+            stack = [st.value]
+            while stack:
+                e = stack.pop()
+                if isinstance(e, ast.BinOp) and isinstance(e.op, ast.BitAnd):
+                    stack += [e.left, e.right]
+                    continue
+                if isinstance(e, ast.BinOp) and isinstance(e.op, ast.BitOr):
+                    wrong = (e, "`|` keeps points where only one of x / y is present")
+                    break
+                t_ = norm(e)
+                if t_ == mname and isinstance(st, ast.Assign) and st is not mst[0]:
+                    continue          # mask = mask & ...: continues the conjunction
+                inv = isinstance(e, ast.UnaryOp) and isinstance(e.op, ast.Invert)
+                core = e.operand if inv else e
+                tc = norm(core)
+                pos = (".notnull()" in tc or "isfinite(" in tc or ".notna()" in tc)
+                neg = (".isnull()" in tc or "isnan(" in tc or ".isna()" in tc)
+                if pos == neg:
+                    raise AnalysisError("idiom changed: mask term `%s`" % t_[:60])
+                if (pos and inv) or (neg and not inv):
+                    wrong = (e, "`%s` selects the MISSING points" % t_[:50])
+                    break
+                rl = roles_of(core, pl, {"x", "y"})
+                need(len(rl) == 1, "idiom changed: mask term `%s` mixes %s" % (t_[:50], sorted(rl)))
+                roles_seen.append((list(rl)[0], st))
+            if wrong:
+                break
+        if wrong:
+            r8.bad(ctx.finding("C18.R8", pl, wrong[0], "the non-null mask is built with %s" % wrong[1], construct="mask-def"), "mask def")
+        else:
+            rs_ = [r_ for r_, _ in roles_seen]
+            if rs_.count("y") >= 1 and rs_.count("x") == 1 and len(rs_) == 2:
+                r8.ok("mask = y non-null (& x non-null when x varies)")
+            elif "y" not in rs_ or len(rs_) != len(set(rs_)):
+                r8.bad(ctx.finding("C18.R8", pl, mst[0], "the non-null mask is built from %s: it must require y (and x when x varies per slice) exactly once each" % rs_, construct="mask-def"), "mask def")
+            elif "x" not in rs_:
+                r8.bad(ctx.finding("C18.R8", pl, mst[0], "the non-null mask never looks at x: when x is a data variable, points with a missing x are kept", construct="mask-def"), "mask def")
+            else:
+                raise AnalysisError("idiom changed: mask terms %s" % rs_)
 
     # ---- R9 histogram density delegated to numpy
     r9 = ctx.rule("C18.R9", "histogram mode: counts / density come from np.histogram(x, bins=self.bins, density=self.bins_density)", floor=1)
@@ -917,13 +1329,30 @@ def c18_rules(ctx):
     need(tc and lg, "anchor lost: to_colors / add_visualize_legend in plot_heatmap")
     mm_t = arg(tc[0], None, "max_mag")
     mm_l = arg(lg[0], None, "max_mag")
-    d = single_def(ph, "max_mag")
-    outside = d is not None and not any(isinstance(p, ast.For) for p in _parents(d[0].ast))
-    if mm_t is not None and mm_l is not None and norm(mm_t) == norm(mm_l) == "max_mag" and outside and "zdata_all" in " ".join(norm(v) for nm in names_in(d[1]) for _, v in assignments_to(ph, nm) if v is not None):
+    loopn = [n for n in walk_shallow(ph.node) if isinstance(n, ast.For) and "self.ranges" in norm(n.iter)]
+    need(len(loopn) == 1, "anchor lost: location loop in plot_heatmap")
+    in_loop = {x.id for st in ast.walk(loopn[0]) if isinstance(st, (ast.Assign, ast.AugAssign, ast.For)) for t_ in (st.targets if isinstance(st, ast.Assign) else [st.target]) for x in ast.walk(t_) if isinstance(x, ast.Name)}
+
+    def per_panel(e, depth=0):
+        """does the value depend on a name assigned inside the location loop?"""
+        if e is None:
+            return True          # to_colors' own default: the maximum of the array it is given (the panel's)
+        for nm in names_in(e):
+            if nm in in_loop:
+                return True
+            for _, v in assignments_to(ph, nm):
+                if v is not None and depth < 4 and per_panel(v, depth + 1):
+                    return True
+        return False
+    if per_panel(mm_t):
+        r10.bad(ctx.finding("C18.R10", ph, tc[0], "the per-panel colours (`%s`) are normalised with a value computed from the panel's own data (or to_colors' default) instead of the global max_mag: equal z values get different colours in different panels and disagree with the legend" % norm(tc[0])[:70],
+                            construct="heatmap-max_mag"), "shared colour scale")
+    elif mm_l is None or per_panel(mm_l):
+        r10.bad(ctx.finding("C18.R10", ph, lg[0], "the legend's colour scale is not the global max_mag the panels use", construct="heatmap-max_mag"), "shared colour scale")
+    elif _exp_local(ph, mm_t) == _exp_local(ph, mm_l):
         r10.ok("to_colors(..., max_mag=max_mag) and the legend share max_mag computed once from all finite data")
     else:
-        r10.bad(ctx.finding("C18.R10", ph, tc[0], "the per-panel colours (`%s`) and the legend do not share the global max_mag: each panel is normalised to its own maximum, so equal z values get different colours in different panels and disagree with the legend" % norm(tc[0])[:70],
-                            construct="heatmap-max_mag"), "shared colour scale")
+        raise AnalysisError("idiom changed: panels use max_mag=%s, the legend max_mag=%s" % (_exp_local(ph, mm_t)[:40], _exp_local(ph, mm_l)[:40]))
 
     # ---- R12 heat map: whatever aggregate was given, every unmapped dimension is aggregated away
     r12 = ctx.rule("C18.R12", "heat map with unmapped dimensions: aggregate None / a name / a list of names are all widened to 'all unmapped dimensions' (one mesh per panel)", floor=3)
@@ -986,8 +1415,530 @@ def c18_rules(ctx):
         raise AnalysisError("idiom changed: endpoint=%s in the automatic hue generator" % norm(ep))
 
 
+def enclosing_func_of(n, funcs):
+    for p in _parents(n):
+        for f in funcs:
+            if p is f.node:
+                return f
+    raise AnalysisError("enclosing function of `%s` not in the analysed family" % norm(n)[:40])
+
+
 def _parents(n):
     p = getattr(n, "_parent", None)
     while p is not None:
         yield p
         p = getattr(p, "_parent", None)
+
+
+# ------------------------------------------------------------------ C18: classification of a mapped property, selection mapping, None contradictions
+def _facts(tests):
+    """atomic facts (expr, truth) that definitely hold given the (test, polarity) list: conjuncts of true `and`s,
+    disjuncts of false `or`s, operands of `not`"""
+    out = []
+
+    def add(e, pol):
+        if isinstance(e, ast.UnaryOp) and isinstance(e.op, ast.Not):
+            add(e.operand, not pol)
+        elif isinstance(e, ast.BoolOp) and isinstance(e.op, ast.And) and pol:
+            for v in e.values:
+                add(v, True)
+        elif isinstance(e, ast.BoolOp) and isinstance(e.op, ast.Or) and not pol:
+            for v in e.values:
+                add(v, False)
+        else:
+            out.append((e, pol))
+    for t, pol in tests:
+        add(t, pol)
+    return out
+
+
+def _none_fact(facts, key):
+    """does the fact list say that `key` (normalised text) is None?  -> True (is None) / False (is not None) / None"""
+    for e, pol in facts:
+        if isinstance(e, ast.Compare) and len(e.ops) == 1 and norm(e.left) == key and isinstance(e.comparators[0], ast.Constant) and e.comparators[0].value is None:
+            if isinstance(e.ops[0], ast.Is):
+                return pol
+            if isinstance(e.ops[0], ast.IsNot):
+                return not pol
+    return None
+
+
+def _exp_local(fi, e, depth=0):
+    """normalised text of `e` with local names that have a single definition replaced by it"""
+    if depth > 3:
+        return norm(e)
+    e2 = ast.parse(norm(e), mode="eval").body
+
+    class R(ast.NodeTransformer):
+        def visit_Name(self, n):
+            d = single_def(fi, n.id) if isinstance(n.ctx, ast.Load) and n.id not in fi.params else None
+            if d is not None and d[1] is not None:
+                return ast.parse(_exp_local(fi, d[1], depth + 1), mode="eval").body
+            return n
+    return norm(R().visit(e2))
+
+
+def c18_structure_rules(ctx):
+    from ..pathcond import path_tests, Truth, _reassigned_between
+    prog = ctx.prog
+    I = prog.need_cls(INF + ".Infiniplotter")
+    pl, ph, imd, init = (I.methods.get(k) for k in ("plot_lines", "plot_heatmap", "init_mapped_dim", "__init__"))
+    need(pl and ph and imd and init, "anchor lost: Infiniplotter methods")
+
+    # ---- R13: x taken per slice whenever x is a data variable
+    r13 = ctx.rule("C18.R13", "x values of a slice: when x is a data variable they are selected per slice (never the whole variable), on every path to ax.plot", floor=2)
+    plots_ = [c for c in walk_shallow(pl.node) if isinstance(c, ast.Call) and isinstance(c.func, ast.Attribute) and c.func.attr == "plot" and norm(c.func.value) == "ax"]
+    need(len(plots_) == 1 and plots_[0].args, "anchor lost: ax.plot in plot_lines")
+    # chase the x argument back to the (possibly several) definitions of the raw x values
+    xname = plots_[0].args[0]
+    hops = 0
+    while isinstance(xname, ast.Name):
+        d = single_def(pl, xname.id)
+        if d is None:
+            break
+        e = d[1]
+        # strip the mask subscript
+        if isinstance(e, ast.Subscript) and isinstance(e.value, ast.Name):
+            e = e.value
+        xname = e
+        hops += 1
+        need(hops < 5, "idiom changed: x argument of ax.plot in plot_lines")
+    need(isinstance(xname, ast.Name), "idiom changed: x argument of ax.plot is `%s`" % norm(xname))
+    defs = [(n, v) for n, v in assignments_to(pl, xname.id) if v is not None]
+    need(len(defs) >= 1, "anchor lost: definitions of %s in plot_lines" % xname.id)
+    locals_ = {nm: v for nm in {x.id for x in ast.walk(pl.node) if isinstance(x, ast.Name)} for d_ in [single_def(pl, nm)] if d_ is not None for v in [d_[1]]}
+    T = Truth({"X": ["self.x in self.ds.data_vars"]}, defs=locals_)
+    slice_names = {nm for nm, v in locals_.items() if ".isel(" in norm(v) or ".sel(" in norm(v)}
+    local_ok = {False: False, True: False}
+    for n, v in defs:
+        txt = norm(v)
+        is_local = any(nm in names_in(v) for nm in slice_names) or ".isel(loc)" in txt
+        is_global = not is_local and "self.ds" in txt
+        need(is_local or is_global, "idiom changed: x values `%s = %s`" % (xname.id, txt))
+        tests = path_tests(pl.node, n.ast)
+        f = T.conj(tests)
+        for X in (False, True):
+            reach = f({"X": X})
+            if is_global and reach and X:
+                r13.bad(ctx.finding("C18.R13", pl, n.ast, "when x is a data variable the x values of every slice are `%s` -- the whole variable, not the slice's values: every line is drawn against all slices' x values (or raises on the shape mismatch)" % txt[:60], construct="x-not-per-slice"), "x per slice")
+            if is_local and reach:
+                local_ok[X] = True
+        r13.ok("%s = %s reached %s" % (xname.id, txt[:50], "only when x is a coordinate" if is_global else "when x is a data variable"))
+    glob_reach_false = any(T.conj(path_tests(pl.node, n.ast))({"X": False}) for n, v in defs)
+    if not local_ok[True] and not r13.findings:
+        r13.bad(ctx.finding("C18.R13", pl, plots_[0], "when x is a data variable no definition of `%s` is reached before ax.plot: the slice's x values are never selected" % xname.id, construct="x-slice-missing"), "x per slice reached")
+    elif not glob_reach_false:
+        r13.bad(ctx.finding("C18.R13", pl, plots_[0], "when x is a coordinate no definition of `%s` is reached before ax.plot" % xname.id, construct="x-coordinate-missing"), "x coordinate reached")
+    else:
+        r13.ok("a definition of the x values is reached for x a data variable (per slice) and for x a coordinate")
+
+    # ---- R14: the selection mapping of a location is {dimension: index}
+    r14 = ctx.rule("C18.R14", "location mapping: loc = dict(zip(<dimension names>, <index tuple of the product loop>)), names and index ranges appended in lock-step", floor=2)
+    for f in (pl, ph):
+        loops = [n for n in walk_shallow(f.node) if isinstance(n, ast.For) and "self.ranges" in norm(n.iter)]
+        need(len(loops) == 1 and isinstance(loops[0].target, ast.Name), "anchor lost: location loop in %s" % f.name)
+        lv = loops[0].target.id
+        locd = [v for n, v in assignments_to(f, "loc") if v is not None]
+        need(len(locd) == 1, "anchor lost: `loc` in %s" % f.name)
+        v = locd[0]
+        if isinstance(v, ast.Call) and norm(v.func) == "dict" and len(v.args) == 1 and isinstance(v.args[0], ast.Call) and norm(v.args[0].func) == "zip" and len(v.args[0].args) == 2:
+            a, b = v.args[0].args
+            if norm(b) == lv and lv not in names_in(a):
+                r14.ok("%s: loc = dict(zip(%s, %s))" % (f.name, norm(a), lv))
+            elif norm(a) == lv:
+                r14.bad(ctx.finding("C18.R14", f, v, "loc maps the loop's indices to the dimension names (`%s`): isel(loc) and loc[self.row] look dimensions up by name, so no slice is selected / placed correctly" % norm(v), construct="loc-orientation " + f.name), "loc orientation")
+            else:
+                raise AnalysisError("idiom changed: loc = %s in %s" % (norm(v), f.name))
+        elif isinstance(v, ast.DictComp) and len(v.generators) == 1 and isinstance(v.generators[0].iter, ast.Call) and norm(v.generators[0].iter.func) == "zip":
+            a, b = v.generators[0].iter.args[:2]
+            tg = v.generators[0].target
+            need(isinstance(tg, ast.Tuple) and len(tg.elts) == 2, "idiom changed: loc comprehension in %s" % f.name)
+            kpos = [i for i, t in enumerate(tg.elts) if norm(t) == norm(v.key)]
+            need(len(kpos) == 1, "idiom changed: loc comprehension key in %s" % f.name)
+            key_src = (a, b)[kpos[0]]
+            if norm(key_src) != lv and norm((a, b)[1 - kpos[0]]) == lv:
+                r14.ok("%s: loc = {dim: index ...}" % f.name)
+            else:
+                r14.bad(ctx.finding("C18.R14", f, v, "loc's keys come from the loop's index tuple", construct="loc-orientation " + f.name), "loc orientation")
+        else:
+            raise AnalysisError("idiom changed: loc = %s in %s" % (norm(v), f.name))
+    # lock-step of names and sizes in __init__
+    t = method_text(ctx, init)
+    apps = [n for n in ast.walk(init.node) if isinstance(n, ast.Call) and isinstance(n.func, ast.Attribute) and n.func.attr == "append" and norm(n.func.value) in ("self.remaining_dims", "self.remaining_sizes")]
+    if apps:
+        blocks = {id(getattr(getattr(n, "_parent", None), "_parent", None)): [] for n in apps}
+        for n in apps:
+            blocks[id(getattr(getattr(n, "_parent", None), "_parent", None))].append(norm(n.func.value))
+        if all(sorted(v) == ["self.remaining_dims", "self.remaining_sizes"] for v in blocks.values()):
+            r14.ok("remaining_dims and remaining_sizes are appended together")
+        else:
+            r14.bad(ctx.finding("C18.R14", init, apps[0], "remaining_dims and remaining_sizes are not appended under the same condition: names and index ranges go out of step", construct="remaining-lockstep"), "lock-step")
+
+    # ---- R15: a mapped property's name is never used as a key where the path says it is None
+    r15 = ctx.rule("C18.R15", "no look-up keyed by a mapped property (loc[...], ds_loc[...], ', '.join(...)) on a path whose own tests say the property is None", floor=3)
+    for f in I.methods.values():
+        ctx.touch(f)
+        for n in walk_shallow(f.node):
+            keys = []
+            if isinstance(n, ast.Subscript) and isinstance(n.ctx, ast.Load) and norm(n.value) in ("loc", "ds_loc", "self.ds") and isinstance(n.slice, (ast.Name, ast.Attribute)):
+                keys = [n.slice]
+            elif isinstance(n, ast.Call) and isinstance(n.func, ast.Attribute) and n.func.attr == "join" and len(n.args) == 1 and isinstance(n.args[0], (ast.Tuple, ast.List)):
+                keys = [e for e in n.args[0].elts if isinstance(e, (ast.Name, ast.Attribute))]
+            for k in keys:
+                kt = norm(k)
+                tests = [(t_, p_) for t_, p_ in path_tests(f.node, n) if not (isinstance(k, ast.Name) and _reassigned_between(f.node, k.id, t_, n))]
+                nf = _none_fact(_facts(tests), kt)
+                if nf is True:
+                    r15.bad(ctx.finding("C18.R15", f, n, "`%s` is evaluated on a path whose own tests say `%s is None`: the branch for a mapped property runs when the property is not mapped (KeyError / TypeError), and is skipped when it is -- mapped coordinates are then not styled / placed" % (norm(n)[:50], kt), construct="none-key " + kt), "none key %s" % kt)
+                elif nf is False:
+                    r15.ok("%s: %s only where %s is not None" % (f.name, norm(n)[:40], kt))
+
+    # ---- R16: init_mapped_dim classification: fused / constant / mapped / absent
+    r16 = ctx.rule("C18.R16", "init_mapped_dim: fused names are stacked iff all components are dimensions; a value that is no dimension is a constant style (size 1, attribute reset); a dimension is mapped (domains, values); every path records the attribute", floor=6)
+    g = build_cfg(imd.node)
+    nodes = list(walk_shallow(imd.node))
+    atoms = {"T": ["isinstance(dim, tuple)"], "A": ["new_dim in self.ds.dims"], "B": ["all((x in self.ds.dims for x in dim))"],
+             "N": ["dim is None"], "D": ["dim in self.ds.dims"], "C": ["custom_values is None"], "V": ["default_values is None"],
+             "H": ["self.is_heatmap and name in _HEATMAP_INVALID_KWARGS"], "O": ["order is None"], "L": ["isinstance(dim, list)"],
+             "K": ["callable(default_values)"], "TL": ["dim_ticklabels is None"], "TD": ["isinstance(dim_ticklabels, dict)"], "DL": ["dim_label is None"]}
+    TT = Truth(atoms)
+    names = sorted(atoms)
+
+    def cond_of(node):
+        f_ = TT.conj(path_tests(imd.node, node))
+        return lambda **kw: f_({**{a: False for a in names}, **kw})
+
+    def vals(**fixed):
+        import itertools
+        free = [a for a in ("T", "A", "B", "N", "D", "C", "V") if a not in fixed]
+        for combo in itertools.product((False, True), repeat=len(free)):
+            v = dict(zip(free, combo), **fixed)
+            if v.get("N") and v.get("D"):
+                continue          # None is no dimension
+            if v.get("A") and v.get("B"):
+                continue          # a fused name exists only once its components are levels, not dimensions
+            yield v
+    # an inverted membership inside the all(...) is recognised as wrong outright
+    for n in nodes:
+        if isinstance(n, ast.Call) and norm(n.func) == "all" and n.args and isinstance(n.args[0], ast.GeneratorExp) and isinstance(n.args[0].elt, ast.Compare) and isinstance(n.args[0].elt.ops[0], ast.NotIn) and "self.ds.dims" in norm(n.args[0].elt):
+            r16.bad(ctx.finding("C18.R16", imd, n, "the fused-dimension test asks that NO component is a dimension (`%s`): fused mappings of existing dimensions are never stacked" % norm(n), construct="fused-test-inverted"), "fused test")
+            return
+    stacks = [n for n in nodes if isinstance(n, ast.Assign) and norm(n.targets[0]) == "self.ds" and ".stack(" in norm(n.value)]
+    need(len(stacks) == 1, "anchor lost: self.ds = self.ds.stack(...) in init_mapped_dim")
+    c = cond_of(stacks[0])
+    bad = [v for v in vals() if c(**v) != (v["T"] and not v["A"] and v["B"])]
+    if bad:
+        v = bad[0]
+        r16.bad(ctx.finding("C18.R16", imd, stacks[0], "the dataset is %sstacked when the property is %sa tuple, the fused name is %salready a dimension and %s components are dimensions" % ("" if c(**v) else "not ", "" if v["T"] else "not ", "" if v["A"] else "not ", "all" if v["B"] else "not all"), construct="fused-stack-condition"), "stack condition")
+    else:
+        r16.ok("stacked iff a tuple, not yet fused, all components are dimensions")
+    rebinds = [n for n in nodes if isinstance(n, ast.Assign) and norm(n.targets[0]) == "dim" and norm(n.value) == "new_dim"]
+    need(rebinds, "anchor lost: dim = new_dim in init_mapped_dim")
+    cs = [cond_of(n) for n in rebinds]
+    bad = [v for v in vals() if any(c_(**v) for c_ in cs) != (v["T"] and (v["A"] or v["B"]))]
+    if bad:
+        v = bad[0]
+        r16.bad(ctx.finding("C18.R16", imd, rebinds[0], "the property is %sre-pointed at the fused name when tuple=%s, fused name present=%s, all components present=%s" % ("" if any(c_(**v) for c_ in cs) else "not ", v["T"], v["A"], v["B"]), construct="fused-rebind-condition"), "fused rebind")
+    else:
+        r16.ok("dim = fused name iff the fused dimension exists or was just created")
+    # constant branch
+    consts_ = [n for n in nodes if isinstance(n, ast.Assign) and norm(n.targets[0]) == "self.base_style[name]"]
+    need(len(consts_) == 1, "anchor lost: self.base_style[name] = dim")
+    c = cond_of(consts_[0])
+    bad = [v for v in vals(T=False, A=False, B=False) if c(**v) != ((not v["N"]) and (not v["D"]))]
+    if bad:
+        v = bad[0]
+        r16.bad(ctx.finding("C18.R16", imd, consts_[0], "the value is %streated as a constant style when it is %sNone and is %sa dimension of the dataset" % ("" if c(**v) else "not ", "" if v["N"] else "not ", "" if v["D"] else "not "), construct="constant-branch-condition"), "constant branch")
+    else:
+        r16.ok("constant style iff the value is given and is no dimension")
+    # mapped branch
+    doms = [n for n in nodes if isinstance(n, ast.Assign) and norm(n.targets[0]) == "self.domains[name]"]
+    need(len(doms) == 1, "anchor lost: self.domains[name]")
+    c = cond_of(doms[0])
+    bad = [v for v in vals(T=False, A=False, B=False) if c(**v) != ((not v["N"]) and v["D"])]
+    if bad:
+        v = bad[0]
+        r16.bad(ctx.finding("C18.R16", imd, doms[0], "the coordinates are %srecorded when the value is %sNone and is %sa dimension" % ("" if c(**v) else "not ", "" if v["N"] else "not ", "" if v["D"] else "not "), construct="mapped-branch-condition"), "mapped branch")
+    else:
+        r16.ok("coordinates recorded iff the value is a dimension")
+    # sizes
+    for n in nodes:
+        if isinstance(n, ast.Assign) and norm(n.targets[0]) == "self.sizes[name]":
+            c = cond_of(n)
+            mapped = any(c(**v) and (not v["N"]) and v["D"] for v in vals(T=False, A=False, B=False))
+            vtxt = norm(n.value)
+            if mapped:
+                if vtxt != "len(self.domains[name])" and _exp_local(imd, n.value) not in ("len(self.domains[name])", "len(%s)" % _exp_local(imd, doms[0].value)):
+                    if isinstance(n.value, ast.Constant):
+                        r16.bad(ctx.finding("C18.R16", imd, n, "a mapped dimension is given the constant size %s" % vtxt, construct="size-mapped"), "size mapped")
+                    else:
+                        raise AnalysisError("idiom changed: size of a mapped dimension = %s" % vtxt)
+                else:
+                    r16.ok("mapped: sizes[name] = len(domains[name])")
+            elif isinstance(n.value, ast.Constant) and n.value.value == 1:
+                r16.ok("not mapped: sizes[name] = 1")
+            elif isinstance(n.value, ast.Constant):
+                r16.bad(ctx.finding("C18.R16", imd, n, "a property that is not mapped to a dimension gets size %s instead of 1: the grid / product of locations has the wrong extent" % vtxt, construct="size-unmapped"), "size unmapped")
+            else:
+                raise AnalysisError("idiom changed: size of an unmapped property = %s" % vtxt)
+    # every normal path records the attribute
+    sets_ = [n for n in g.nodes if any(norm(c_.func) == "setattr" and len(c_.args) == 3 and norm(c_.args[0]) == "self" and norm(c_.args[1]) == "name" for c_ in node_calls(n))]
+    if not sets_:
+        r16.bad(ctx.finding("C18.R16", imd, imd.node, "init_mapped_dim never records the resolved property (setattr(self, name, ...)): fused tuples / constant styles stay in the attribute the drawing code keys `loc` with", construct="attr-not-recorded"), "attribute recorded")
+    else:
+        reach = g.reachable(start=g.entry.id, blocked_nodes=[n.id for n in sets_], skip_labels=("exc",))
+        if g.exit.id in reach:
+            r16.bad(ctx.finding("C18.R16", imd, imd.node, "a path through init_mapped_dim returns without recording the resolved property (setattr(self, name, ...)): the attribute keeps the user's value (a tuple, a colour name) and the drawing code uses it as a dimension name", construct="attr-not-recorded"), "attribute recorded")
+        else:
+            r16.ok("every normal path records the resolved property with setattr(self, name, ...)")
+        for n in sets_:
+            for c_ in node_calls(n):
+                if norm(c_.func) == "setattr" and len(c_.args) == 3:
+                    cc = cond_of(n.stmt)
+                    in_const = any(cc(**v) and (not v["N"]) and (not v["D"]) for v in vals(T=False, A=False, B=False)) and not any(cc(**v) and v["D"] for v in vals(T=False, A=False, B=False))
+                    vt = norm(c_.args[2])
+                    if in_const and vt != "None":
+                        r16.bad(ctx.finding("C18.R16", imd, c_, "a constant style value is recorded as the mapped dimension (`%s`)" % vt, construct="attr-constant"), "attribute constant")
+                    elif not in_const and vt != "dim":
+                        raise AnalysisError("idiom changed: setattr(self, name, %s)" % vt)
+                    else:
+                        r16.ok("setattr(self, name, %s) %s" % (vt, "in the constant branch" if in_const else "otherwise"))
+    # values
+    vs = [n for n in nodes if isinstance(n, ast.Assign) and norm(n.targets[0]) == "self.values[name]"]
+    need(vs, "anchor lost: self.values[name]")
+    covered = {}
+    for n in vs:
+        c = cond_of(n)
+        uses_custom = "custom_values" in names_in(n.value)
+        uses_default = "default_values" in names_in(n.value)
+        need(uses_custom != uses_default, "idiom changed: self.values[name] = %s" % norm(n.value)[:60])
+        for v in vals(T=False, A=False, B=False, N=False, D=True):
+            if c(**v):
+                covered[(v["C"], v["V"])] = True
+                if uses_custom and v["C"]:
+                    r16.bad(ctx.finding("C18.R16", imd, n, "the custom style values are stored where the path says none were given (custom_values is None): the defaults are never used and given values are ignored", construct="values-custom-polarity"), "values polarity")
+                    break
+                if uses_default and (not v["C"] or v["V"]):
+                    r16.bad(ctx.finding("C18.R16", imd, n, "the default style values are stored when %s" % ("custom values were given" if not v["C"] else "there are no defaults"), construct="values-default-polarity"), "values polarity")
+                    break
+        else:
+            r16.ok("values[name] <- %s" % ("custom_values when given" if uses_custom else "defaults when no custom values"))
+        if uses_default:
+            # the element taken from zip(default_values, range(size)) is the default value
+            for ge in ast.walk(n.value):
+                if isinstance(ge, ast.GeneratorExp) and isinstance(ge.generators[0].iter, ast.Call) and norm(ge.generators[0].iter.func) == "zip":
+                    tg = ge.generators[0].target
+                    za = ge.generators[0].iter.args
+                    if isinstance(tg, ast.Tuple) and len(tg.elts) == len(za) and isinstance(ge.elt, ast.Name):
+                        pos = [i for i, t_ in enumerate(tg.elts) if norm(t_) == ge.elt.id]
+                        need(len(pos) == 1, "idiom changed: default values generator")
+                        if "default_values" in names_in(za[pos[0]]):
+                            r16.ok("the stored defaults are the elements of default_values")
+                        else:
+                            r16.bad(ctx.finding("C18.R16", imd, ge, "the stored style values are the elements of `%s`, not of default_values" % norm(za[pos[0]]), construct="values-default-source"), "values source")
+    if not (covered.get((False, False)) or covered.get((False, True))) and not r16.findings:
+        r16.bad(ctx.finding("C18.R16", imd, vs[0], "given custom style values are never stored", construct="values-custom-missing"), "values custom")
+    if not covered.get((True, False)) and not r16.findings:
+        r16.bad(ctx.finding("C18.R16", imd, vs[0], "default style values are never stored when no custom values are given", construct="values-default-missing"), "values default")
+
+    # ---- R17: every property the drawing code looks up is initialised
+    r17 = ctx.rule("C18.R17", "every mappable property read by the drawing code (domains / values / sizes / loc[self.<prop>]) is initialised by init_mapped_dim in __init__", floor=6)
+    used = set()
+    for f in (pl, ph, init) + tuple(m for m in I.methods.values() if m not in (pl, ph, init, imd)):
+        for n in walk_shallow(f.node):
+            if isinstance(n, ast.Subscript) and norm(n.value) in ("self.domains", "self.values", "self.sizes") and isinstance(n.slice, ast.Constant) and isinstance(n.slice.value, str):
+                used.add(n.slice.value)
+            if isinstance(n, ast.For) and isinstance(n.iter, (ast.Tuple, ast.List)) and all(isinstance(e, ast.Constant) and isinstance(e.value, str) for e in n.iter.elts):
+                body_t = " ".join(norm(b) for b in n.body)
+                if "self.domains[%s]" % norm(n.target) in body_t or "self.values[%s]" % norm(n.target) in body_t:
+                    used |= {e.value for e in n.iter.elts}
+    inits = {}
+    gi = build_cfg(init.node)
+    for n in gi.nodes:
+        for c_ in node_calls(n):
+            if norm(c_.func) == "self.init_mapped_dim" and c_.args and isinstance(c_.args[0], ast.Constant):
+                inits.setdefault(c_.args[0].value, []).append(n)
+    need(len(used) >= 6, "anchor lost: mapped properties used by the drawing code (%s)" % sorted(used))
+    for p in sorted(used):
+        ns = inits.get(p, [])
+        if not ns:
+            r17.bad(ctx.finding("C18.R17", init, init.node, "property %r is looked up by the drawing code (domains / values / sizes) but never initialised with init_mapped_dim: mapping a dimension to it raises or is ignored" % p, construct="prop-uninitialised " + p), "init %s" % p)
+        elif gi.exit.id in gi.reachable(start=gi.entry.id, blocked_nodes=[n.id for n in ns], skip_labels=("exc",)):
+            r17.bad(ctx.finding("C18.R17", init, ns[0].stmt, "init_mapped_dim(%r) is skipped on some path through __init__" % p, construct="prop-init-conditional " + p), "init %s" % p)
+        else:
+            r17.ok("init_mapped_dim(%r) on every path" % p)
+
+
+# ------------------------------------------------------------------ C17: further shape rules
+def _last_defs_through(g, Z, defs):
+    """definition nodes (of one storage location) whose value can be the current one at the function's normal exit on
+    a path that passes through node Z"""
+    ids = {d.id for d in defs}
+    out = []
+    for d in defs:
+        others = list(ids - {d.id})
+        before = d.id == Z.id or Z.id in g.reachable(start=d.id, blocked_nodes=others, skip_labels=("exc",))
+        z_to_exit_clean = g.exit.id in g.reachable(start=Z.id, blocked_nodes=[x for x in ids if x != Z.id], skip_labels=("exc",))
+        after = d.id != Z.id and d.id in g.reachable(start=Z.id, skip_labels=("exc",)) and g.exit.id in g.reachable(start=d.id, blocked_nodes=others, skip_labels=("exc",))
+        if (before and z_to_exit_clean) or after:
+            out.append(d)
+    return out
+
+
+def c17_extra_rules(ctx, rid_lim, rid_mv, rid_sel):
+    from ..pathcond import path_tests, Truth
+    prog = ctx.prog
+    P = prog.need_cls(CORE + ".Plotter")
+    cl, cn = P.methods.get("calc_line_colors"), P.methods.get("calc_color_norm")
+    need(cl and cn, "anchor lost: calc_line_colors / calc_color_norm")
+    # ---- colour limits and the non-numeric fallback
+    r = ctx.rule(rid_lim, "colour limits: zmin <- zlims[0] / data minimum, zmax <- zlims[1] / data maximum; the numeric test looks at an element every non-empty series list has; non-numeric z values are spread over [0, 1]", floor=5)
+    for n in walk_shallow(cn.node):
+        if isinstance(n, ast.Assign) and len(n.targets) == 1 and norm(n.targets[0]) in ("self._zmin", "self._zmax"):
+            which = norm(n.targets[0])[-3:]
+            v = n.value
+            if isinstance(v, ast.Subscript) and norm(v.value) == "self.zlims":
+                if isinstance(v.slice, ast.Constant) and isinstance(v.slice.value, int):
+                    want = 0 if which == "min" else 1
+                    if v.slice.value in (want, want - 2):
+                        r.ok("z%s <- zlims[%d]" % (which, v.slice.value))
+                    else:
+                        r.bad(ctx.finding(rid_lim, cn, n, "the lower / upper colour limit z%s is taken from zlims[%d]: the requested limits are swapped or ignored" % (which, v.slice.value), construct="zlims-index " + which), "zlims index")
+                else:
+                    raise AnalysisError("idiom changed: %s" % norm(n))
+            else:
+                calls = [c.func.attr for c in ast.walk(v) if isinstance(c, ast.Call) and isinstance(c.func, ast.Attribute) and c.func.attr in ("min", "max", "nanmin", "nanmax")]
+                if calls:
+                    if all(c.endswith(which) for c in calls):
+                        r.ok("z%s defaults to the data %simum" % (which, which))
+                    else:
+                        r.bad(ctx.finding(rid_lim, cn, n, "the default of z%s is the data's %s" % (which, calls[0]), construct="zlim-default " + which), "zlim default")
+    lins = [n for n in walk_shallow(cl.node) if isinstance(n, ast.Assign) and norm(n.targets[0]) == "rvals" and isinstance(n.value, ast.Call) and norm(n.value.func).endswith("linspace")]
+    need(lins, "anchor lost: the non-numeric colour fallback (linspace) in calc_line_colors")
+    for ln in lins:
+        a = ln.value.args
+        need(len(a) >= 3, "idiom changed: %s" % norm(ln.value))
+        if isinstance(a[0], ast.Constant) and isinstance(a[1], ast.Constant):
+            if (a[0].value, a[1].value) == (0, 1):
+                r.ok("non-numeric z: linspace(0, 1, ...)")
+            else:
+                r.bad(ctx.finding(rid_lim, cl, ln, "non-numeric z values are spread over [%s, %s] instead of the colour map's [0, 1]: %s" % (a[0].value, a[1].value, "all series get one colour" if a[0].value == a[1].value else "part of the series saturate at the end colour"), construct="fallback-range"), "fallback range")
+        else:
+            raise AnalysisError("idiom changed: %s" % norm(ln.value))
+        cnt = norm(a[2])
+        if cnt == "len(self._z_vals)":
+            r.ok("one fallback value per series")
+        elif isinstance(a[2], ast.Constant) or ("len(self._z_vals)" in cnt and cnt != "len(self._z_vals)"):
+            r.bad(ctx.finding(rid_lim, cl, ln, "the number of fallback colour values is `%s`, not the number of series" % cnt, construct="fallback-count"), "fallback count")
+        else:
+            raise AnalysisError("idiom changed: fallback colour count `%s`" % cnt)
+        for t_, _ in path_tests(cl.node, ln):
+            for s in ast.walk(t_):
+                if isinstance(s, ast.Subscript) and norm(s.value) == "self._z_vals" and isinstance(s.slice, (ast.Constant, ast.UnaryOp)):
+                    try:
+                        k = ast.literal_eval(s.slice)
+                    except Exception:
+                        raise AnalysisError("idiom changed: %s" % norm(s))
+                    if k in (0, -1):
+                        r.ok("the numeric test looks at _z_vals[%d]" % k)
+                    else:
+                        r.bad(ctx.finding(rid_lim, cl, s, "the numeric test looks at _z_vals[%d]: with a single series (any number of series is allowed) this raises IndexError" % k, construct="numeric-test-index"), "numeric test index")
+
+    # ---- multi-variable flag
+    rm = ctx.rule(rid_mv, "prepare_z_vals: the series are variable names (multi-variable mode on) exactly when they come from the y / x name lists, and coordinate values or the single placeholder otherwise", floor=3)
+    pz = P.methods.get("prepare_z_vals")
+    need(pz is not None, "anchor lost: prepare_z_vals")
+    ctx.touch(pz)
+    g = build_cfg(pz.node)
+    zdefs = [n for n in g.nodes if n.kind == "stmt" and isinstance(n.ast, ast.Assign) and norm(n.ast.targets[0]) == "self._z_vals"]
+    mdefs = [n for n in g.nodes if n.kind == "stmt" and isinstance(n.ast, ast.Assign) and norm(n.ast.targets[0]) == "self._multi_var"]
+    need(len(zdefs) >= 3 and mdefs, "anchor lost: _z_vals / _multi_var assignments in prepare_z_vals")
+    for Z in zdefs:
+        vt = norm(Z.ast.value)
+        names_mode = vt in ("self.y_coo", "self.x_coo") or vt.startswith(("list(self.y_coo", "tuple(self.y_coo", "list(self.x_coo", "tuple(self.x_coo"))
+        coord_mode = "self._ds[" in vt or vt in ("(None,)", "[None]")
+        need(names_mode or coord_mode, "idiom changed: self._z_vals = %s" % vt)
+        last = _last_defs_through(g, Z, mdefs)
+        need(last, "idiom changed: _multi_var undefined on the path through `self._z_vals = %s`" % vt)
+        vals_ = set()
+        for d in last:
+            need(isinstance(d.ast.value, ast.Constant) and isinstance(d.ast.value.value, bool), "idiom changed: self._multi_var = %s" % norm(d.ast.value))
+            vals_.add(d.ast.value.value)
+        if vals_ == {names_mode}:
+            rm.ok("_z_vals = %s -> _multi_var %s" % (vt, names_mode))
+        else:
+            rm.bad(ctx.finding(rid_mv, pz, Z.ast, "the series are %s (`self._z_vals = %s`) but the multi-variable flag is %s on that path: the series generator then %s" % (
+                "variable names" if names_mode else "coordinate values", vt, sorted(vals_), "selects along z with a variable name" if names_mode else "treats a coordinate value as a variable name"), construct="multi-var-flag " + vt), "multi var %s" % vt)
+
+    # ---- selection along z only where z is a coordinate value; colour values collected in the mode that uses them
+    rs = ctx.rule(rid_sel, "series generators: the selection along z is made only where the path says z is a coordinate value (not None, not multi-variable); line colours from a variable are collected in line mode, per-point colours in scatter mode, whenever c is given", floor=4)
+    for mname, gname in (("prepare_xy_vals_lineplot", "gen_xy"), ("prepare_x_vals_histogram", "gen_x")):
+        m = P.methods.get(mname)
+        gen = m.nested.get(gname) if m else None
+        need(gen is not None, "anchor lost: %s.%s" % (mname, gname))
+        ctx.touch(gen)
+        loops = [n for n in walk_shallow(gen.node) if isinstance(n, ast.For) and "self._z_vals" in norm(n.iter)]
+        need(len(loops) == 1, "anchor lost: series loop in %s" % gname)
+        tg = loops[0].target
+        zname = (tg.elts[-1] if isinstance(tg, ast.Tuple) else tg).id
+        sels = [n for n in walk_shallow(gen.node) if isinstance(n, ast.Subscript) and isinstance(n.slice, ast.Dict) and any(k is not None and norm(k) == "self.z_coo" for k in n.slice.keys)]
+        need(sels, "anchor lost: selection along z in %s" % gname)
+        for s in sels:
+            facts = _facts(path_tests(gen.node, s))
+            nf = _none_fact(facts, zname)
+            mv = [pol for e, pol in facts if norm(e) == "self._multi_var"]
+            if nf is True:
+                rs.bad(ctx.finding(rid_sel, gen, s, "`%s` is evaluated on the path whose own test says `%s is None`: with a z coordinate every series is the whole dataset, without one the selection raises" % (norm(s)[:50], zname), construct="z-select-none " + gname), "z select")
+            elif any(mv):
+                rs.bad(ctx.finding(rid_sel, gen, s, "`%s` is evaluated in multi-variable mode, where `%s` is a variable name, not a z coordinate" % (norm(s)[:50], zname), construct="z-select-multivar " + gname), "z select")
+            elif nf is False:
+                rs.ok("%s: %s only where %s is not None" % (gname, norm(s)[:40], zname))
+            else:
+                raise AnalysisError("idiom changed: the test guarding `%s` in %s" % (norm(s)[:50], gname))
+        if gname != "gen_xy":
+            continue
+        T = Truth({"C": ["self.c_coo is None"], "ML": ["mode == 'lineplot'"], "MS": ["mode == 'scatter'"], "MV": ["self._multi_var"], "ZN": ["%s is None" % zname]})
+        fam = _family(m, gen)
+        apps = [(h_, n) for h_ in fam for n in walk_shallow(h_.node) if isinstance(n, ast.Call) and isinstance(n.func, ast.Attribute) and n.func.attr == "append" and norm(n.func.value) == "self._c_cols"]
+        dcs = [(h_, n) for h_ in fam for n in walk_shallow(h_.node) if isinstance(n, ast.Assign) and isinstance(n.targets[0], ast.Subscript) and isinstance(n.targets[0].slice, ast.Constant) and n.targets[0].slice.value == "c"
+               and isinstance(n.targets[0].value, ast.Name) and (n.targets[0].value.id == "das" or (h_ is not gen and n.targets[0].value.id in h_.params))]
+        need(apps and dcs, "anchor lost: colour collection in gen_xy")
+        import itertools as _it
+
+        def ways(h_, n):
+            """one truth function per way of reaching n: directly in gen, or through each call of the helper it sits in"""
+            if h_ is gen:
+                return [T.conj(path_tests(gen.node, n))]
+            sites = [c for c in walk_shallow(gen.node) if isinstance(c, ast.Call) and isinstance(c.func, ast.Name) and c.func.id == h_.name]
+            need(sites, "idiom changed: helper %s is not called from gen_xy" % h_.name)
+            return [T.conj(path_tests(h_.node, n) + path_tests(gen.node, c)) for c in sites]
+        for label, nodes_, mode_atom in (("line colours (_c_cols.append)", apps, "ML"), ("per-point colours (das['c'])", dcs, "MS")):
+            fs = [f_ for h_, n in nodes_ for f_ in ways(h_, n)]
+            for ZN in (False, True):
+                for C, ML, MS in _it.product((False, True), repeat=3):
+                    if ML and MS:
+                        continue
+                    v = {"C": C, "ML": ML, "MS": MS, "MV": False, "ZN": ZN}
+                    got = sum(1 for f in fs if f(v))
+                    want = 1 if (not C and v[mode_atom]) else 0
+                    if got != want:
+                        rs.bad(ctx.finding(rid_sel, nodes_[0][0], nodes_[0][1], "%s are collected %d time(s) per series when c is %s, mode is %s and z is %s (expected %d): colours and series go out of step" % (
+                            label, got, "absent" if C else "given", "lineplot" if ML else "scatter" if MS else "another mode", "absent" if ZN else "a coordinate", want), construct="colour-collection " + mode_atom), "colour collection")
+                        break
+                else:
+                    continue
+                break
+            else:
+                rs.ok("%s collected once per series iff c is given, in their own mode, with and without a z coordinate" % label)
+
+
+def c17_mesh_rule(ctx, rid):
+    from .c17_mesh import mesh_edges_rule
+    prog = ctx.prog
+    ph = prog.func(MPL + ".HeatMap.plot_heatmap")
+    need(ph is not None, "anchor lost: HeatMap.plot_heatmap")
+    ctx.touch(ph)
+    hw = {"_heatmap_x", "_heatmap_y", "_heatmap_var"}
+    pcs = [c for c in walk_shallow(ph.node) if isinstance(c, ast.Call) and len(c.args) >= 3 and roles_of(c.args[2], ph, hw) == {"_heatmap_var"}]
+    need(len(pcs) == 1, "anchor lost: heat-map draw call")
+    return mesh_edges_rule(ctx, rid, ph, ("self._heatmap_x", "self._heatmap_y"), pcs[0].args[:2])
